@@ -245,7 +245,7 @@ def root_signature(Fc):
 
 
 def run(tier, seed):
-    ctx = core.Ctx(PROP, tier, seed, "translation_validation", ["C04", "C04b"])
+    ctx = core.Ctx(PROP, tier, seed, "translation_validation", ["C04", "C04b", "C03c"])
     ctx.axioms = core.audit(ctx.modules)
     import pyqsp.completion as C
     import pyqsp.LPoly as LP
@@ -321,7 +321,7 @@ def run(tier, seed):
 def replay(path):
     import json
     c = json.load(open(path))
-    ctx = core.Ctx(PROP, "quick", c.get("seed", 0), "translation_validation", ["C04", "C04b"])
+    ctx = core.Ctx(PROP, "quick", c.get("seed", 0), "translation_validation", ["C04", "C04b", "C03c"])
     import pyqsp.completion as C
     import pyqsp.LPoly as LP
     out = one(ctx, C, LP, c["F"], c.get("class", "?"), c.get("in_family", False), c.get("seed_vector"), c["tol"])
